@@ -2679,7 +2679,11 @@ pub fn std() -> impl Function {
             ((sum_2 - sum * sum / count) / (count - 1.)).sqrt().into()
         },
         |(intervals, _size)| match (intervals.min(), intervals.max()) {
-            (Some(&min), Some(&max)) => Ok(data_type::Float::from_interval(0., (max - min) / 2.)),
+            // The sample standard deviation of n >= 2 values in [min, max] is at most (max - min) / sqrt(2)
+            (Some(&min), Some(&max)) => Ok(data_type::Float::from_interval(
+                0.,
+                (max - min) / 2f64.sqrt(),
+            )),
             _ => Ok(data_type::Float::from_min(0.)),
         },
     )
@@ -2705,7 +2709,11 @@ pub fn std_distinct() -> impl Function {
             ((sum_2 - sum * sum / count) / (count - 1.)).sqrt().into()
         },
         |(intervals, _size)| match (intervals.min(), intervals.max()) {
-            (Some(&min), Some(&max)) => Ok(data_type::Float::from_interval(0., (max - min) / 2.)),
+            // The sample standard deviation of n >= 2 values in [min, max] is at most (max - min) / sqrt(2)
+            (Some(&min), Some(&max)) => Ok(data_type::Float::from_interval(
+                0.,
+                (max - min) / 2f64.sqrt(),
+            )),
             _ => Ok(data_type::Float::from_min(0.)),
         },
     )
@@ -2733,7 +2741,8 @@ pub fn var() -> impl Function {
         |(intervals, _size)| match (intervals.min(), intervals.max()) {
             (Some(&min), Some(&max)) => Ok(data_type::Float::from_interval(
                 0.,
-                ((max - min) / 2.).powi(2),
+                // The sample variance of n >= 2 values in [min, max] is at most (max - min)^2 / 2
+                (max - min).powi(2) / 2.,
             )),
             _ => Ok(data_type::Float::from_min(0.)),
         },
@@ -2762,7 +2771,8 @@ pub fn var_distinct() -> impl Function {
         |(intervals, _size)| match (intervals.min(), intervals.max()) {
             (Some(&min), Some(&max)) => Ok(data_type::Float::from_interval(
                 0.,
-                ((max - min) / 2.).powi(2),
+                // The sample variance of n >= 2 values in [min, max] is at most (max - min)^2 / 2
+                (max - min).powi(2) / 2.,
             )),
             _ => Ok(data_type::Float::from_min(0.)),
         },
